@@ -308,3 +308,15 @@ def shallowcache_ok(name):
         rec = Record(name)
         _records[name] = rec
     return copy.deepcopy(rec)
+
+
+def axisorder1(chips):
+    width = max(x for x, _ in chips) + 1
+    height = max(y for y, _ in chips) + 1
+    return width, height
+
+
+def axisorder_ok(chips):
+    width = max(x for x, _ in chips) + 1
+    height = max(y for _, y in chips) + 1
+    return width, height
